@@ -15,7 +15,9 @@ META = dict(
          "n up to above burst, caller/server clock steps with server <= caller, Down/Up) up to a bound for several "
          "quota/period and rate/burst configurations, plus seeded simulation of long histories; each history is "
          "executed on the real limiter over miniredis and every code / grant decision (and whether the request "
-         "reached Redis) is compared with the specification.",
+         "reached Redis) is compared with the specification; the burst+rate*t bound is additionally evaluated directly on "
+         "the grants observed per bucket, and the Align() window length handed to Redis is compared with a TLC-printed "
+         "table of AlignedWindow for the wall-clock seconds of the run.",
     note="Trusted: TLC, miniredis 2.23.1 (Lua via gopher-lua, TTL by FastForward) as the Redis environment, the "
          "driver's barrier (after Up it waits, bounded, for the monitor's ping, reading redisAlive/monitorStarted "
          "only as a barrier). The breaker inside redis.Redis has its coin forced to 'never reject' (H2) so that "
